@@ -212,6 +212,8 @@ class _Collect:
 def worker_main():
     """runs in the fresh interpreter"""
     sys.setrecursionlimit(20000)
+    from collections import deque as _dq
+    keep = _dq(maxlen=64)          # long-lived treespecs of earlier loads stay alive in a real process
     for line in sys.stdin:
         req = json.loads(line)
         c = _Collect()
@@ -244,6 +246,8 @@ def worker_main():
                         fresh = optree.tree_structure(tree, **kw)
                         ms = m.structure(tree)
                     compare_loaded(loaded, fresh, ms, c, f'fresh_process_{hist}')
+                    keep.append(loaded)
+                    keep.append(fresh)
             finally:
                 if hist == 'missing':
                     U.register_again(cls, ns)
